@@ -53,6 +53,30 @@ def plans_c16(prop, tier, seed):
     ]
 
 
+def plans_c06(prop, tier, seed):
+    q = tier == "quick"
+    kinds = {"unsigned", "missigned", "nokey", "payload", "wrongkey", "foreign"}
+    plans = [
+        # tampered copies at every position of the source, candidates or not
+        dict(name="tamper", consts=base_consts(NR=2, Writer0=[1, 2], Lid=["X"] * 2, Denied=[set()] * 2,
+                                               MaxE=3 if q else 4, MaxOps=6 if q else 7, Evil={1}, Kinds=kinds,
+                                               MaxBad=1 if q else 2),
+             max_scripts=40000 if q else None),
+        # access control: replica 2 denies writer 1, replica 3 denies everybody
+        dict(name="acl", consts=base_consts(Denied=[set(), {1}, {1, 2}], MaxE=4, MaxOps=5 if q else 7)),
+    ]
+    # every codec configuration: appended entries verify and merge
+    for codec in ("cbor+lk1", "pb"):
+        plans.append(dict(name="codec_" + codec.replace("+", "_"), codec=codec,
+                          consts=base_consts(NR=2, Writer0=[1, 2], Lid=["X"] * 2, Denied=[set()] * 2,
+                                             MaxE=4, MaxOps=5 if q else 6, PCs={1, 3},
+                                             Evil={1}, Kinds={"missigned"}, MaxBad=1)))
+    if not q:
+        plans.append(dict(name="tamper3", consts=base_consts(MaxE=4, MaxOps=6, Evil={1, 3}, Kinds=kinds, MaxBad=1),
+                          max_scripts=150000))
+    return plans
+
+
 def plans_c15(prop, tier, seed):
     q = tier == "quick"
     return [
@@ -84,6 +108,7 @@ CHECKS = {
     "C03": dict(level="model_checking", run=run_l(plans_core)),
     "C05": dict(level="model_checking", run=run_l(plans_core)),
     "C04": dict(level="model_checking", run=run_l(plans_c04)),
+    "C06": dict(level="model_checking", run=run_l(plans_c06)),
     "C15": dict(level="model_checking", run=run_l(plans_c15)),
     "C16": dict(level="model_checking", run=run_l(plans_c16)),
 }
